@@ -270,6 +270,52 @@ def r1cd_typestate(ctx, prog):
                 rd.ok(g['qname'], sited, '%d soft return paths' % nsoft, file=g['file'], line=g['line'])
 
 
+def r1e_wrong_part_mode(ctx, prog):
+    """A mechanism is single-part only, multi-part only, or both (Session::getAllowSinglePartOp / getAllowMultiPartOp).  A call that does not fit fails - and per PKCS#11 a failing
+    continue/finish call ends the operation.  Every exit that is taken *because* the mode flag forbids the call therefore passes resetOp(); 18 of the 20 guards always did
+    (contradiction rule), the two that did not left C_SignInit answering CKR_OPERATION_ACTIVE after C_SignFinal had answered CKR_OPERATION_NOT_INITIALIZED."""
+    r = ctx.rule('C12.R1e', 'a call refused because the mechanism has no such (single-/multi-part) form ends the operation', floor=18, engine='E3 typestate (contradiction rule: the siblings reset)')
+    seen = set()
+    for api, op, g, finishing, sv, opv in work_functions(prog):
+        if g['qname'] in seen or not sv:
+            continue
+        seen.add(g['qname'])
+        modes = [c for c in calls(g['body']) if short(c.get('callee')) in ('getAllowMultiPartOp', 'getAllowSinglePartOp') and c.get('recv') is not None and canon(c['recv']) == sv]
+        if not modes or not check_analysable(r, g):
+            continue
+        ctx.analysed(g)
+
+        class A(Interp):
+            TRACK = ('rv', 'bOK')
+
+            def __init__(self, fn, prog):
+                super().__init__(fn, prog)
+                self.track_facts = re.compile(r'getAllow(Multi|Single)PartOp\(%s\)' % re.escape(sv))
+                self.rets = []
+
+            def on_call(self, e, st):
+                if e.get('k') == 'Call' and short(e.get('callee')) == 'resetOp' and e.get('recv') is not None and canon(e['recv']) == sv:
+                    st.aut['reset'] = True
+
+            def on_return(self, s, st):
+                self.rets.append((s, st.copy(), ret_class(s, st)))
+        a = A(g, prog).go()
+        r.paths += a.paths_returned
+        for which in sorted({short(c['callee']) for c in modes}):
+            atom = '%s(%s)' % (which, sv)
+            site = 'exits under !%s of %s' % (which, g['qname'].split('::')[-1])
+            taken = [(s, st, rcl) for s, st, rcl in a.rets if (atom, False) in st.facts]
+            bad = [(s, st) for s, st, rcl in taken if rcl != 'OK' and not st.aut.get('reset')]
+            if not taken:
+                # the flag only selects a branch (single-part functions that also serve the multi-part form)
+                r.ok(g['qname'], site, 'the flag selects a branch, no exit depends on it being false', file=g['file'], line=g['line'])
+            elif bad:
+                r.violation(g['qname'], site, 'the error return at line %s is taken because %s() is false - the mechanism has no such form - without resetOp(): the call fails, yet the operation stays active (the next *Init answers CKR_OPERATION_ACTIVE); the sibling entry points all end the operation here' % (bad[0][0]['l'], which),
+                            file=g['file'], line=bad[0][0]['l'], path=bad[0][1].show_path())
+            else:
+                r.ok(g['qname'], site, '%d exits, all after resetOp()' % len(taken), file=g['file'], line=g['line'])
+
+
 def r2_bounds(ctx, prog):
     r = ctx.rule('C12.R2', 'bytes written into a caller buffer <= announced length; bytes read <= source size; reported length == bytes written', floor=18, engine='E8')
     todo = []
@@ -379,6 +425,7 @@ def run(ctx):
     r1a_init(ctx, prog)
     r1b_gate(ctx, prog)
     r1cd_typestate(ctx, prog)
+    r1e_wrong_part_mode(ctx, prog)
     r2_bounds(ctx, prog)
     r3_length_siblings(ctx, prog)
     from rules import c17
@@ -386,6 +433,10 @@ def run(ctx):
 
 
 MUTANTS = [
+    dict(name='verifyfinal-wrong-mode-keeps-operation', rule='C12.R1e', file='src/lib/SoftHSM.cpp', after='CK_RV SoftHSM::C_VerifyFinal(',
+         old='\tif (!session->getAllowMultiPartOp())\n\t{\n\t\tsession->resetOp();\n', new='\tif (!session->getAllowMultiPartOp())\n\t{\n'),
+    dict(name='symencryptupdate-wrong-mode-keeps-operation', rule='C12.R1e', file='src/lib/SoftHSM.cpp', after='static CK_RV SymEncryptUpdate(',
+         old='\tif (cipher == NULL || !session->getAllowMultiPartOp())\n\t{\n\t\tsession->resetOp();\n', new='\tif (cipher == NULL || !session->getAllowMultiPartOp())\n\t{\n'),
     dict(name='rsa-private-output-length-from-stored-modulus', rule='C12.R3', file='src/lib/crypto/RSAPrivateKey.cpp', after='unsigned long RSAPrivateKey::getOutputLength() const',
          old='\treturn (getBitLength() + 7) / 8;', new='\treturn getN().size();'),
     dict(name='digestinit-no-idle-test', rule='C12.R1a', file='src/lib/SoftHSM.cpp', after='CK_RV SoftHSM::C_DigestInit(',
